@@ -142,6 +142,12 @@ def programs(tier: str):
             disp[p1] = {"enter": "ok", "exit": "susp_ok", "yields": "none"}
             disp[p2] = {"enter": "ok", "exit": "susp_ok", "yields": "none"}
             yield {"family": "scope", "block": {"kind": "ascope", "supply": ["A"], "disp": disp, "spawns": [dict(SPAWN[0])], "pause": True, "ending": "return"}, "cancels": 1, "outer": False}
+    # tasks spawned from callables that are not plain coroutine functions (an object with an async
+    # __call__, a lambda returning the coroutine, a functools.partial, a haiway timeout wrapper)
+    for form in ("object", "lambda", "partial", "wrapped"):
+        for kind_ in (SPAWN[0], SPAWN[1] if len(SPAWN) > 1 else SPAWN[0]):
+            for ending in ("return", "raise"):
+                yield {"family": "scope", "block": {"kind": "ascope", "supply": ["A"], "disp": [], "spawns": [dict(kind_, callable=form)], "pause": True, "ending": ending}, "cancels": 1, "outer": False}
     # nested: an inner block of every kind inside a simple / busy outer scope
     inner_kinds = [
         {"kind": "sscope", "supply": ["A"], "pause": True, "ending": "return"},
